@@ -94,7 +94,7 @@ MWEIGHTS = {
     'blacklist': 2, 'group': 3, 'del_group': 1, 'clock': 6, 'cell_event': 1,
     'integrity': 2, 'restart': 0, 'noop': 1, 'blackout_server': 1, 'partition_schedule': 1, 'bucket_new': 1,
     'stale_finished': 1, 'swap_apps': 1, 'retention_update': 1, 'bucket_remove': 0, 'server_delete_event_lost': 1,
-    'servers_reload_all': 1, 'bucket_reparent': 1, 'stale_presence': 2,
+    'servers_reload_all': 1, 'bucket_reparent': 0, 'stale_presence': 2,       # bucket_reparent: C11 only (its profile)
 }
 
 
